@@ -133,6 +133,25 @@ func init() {
 							bad = st.Pos()
 						}
 						c.Check(bad == token.NoPos, key, st.Pos(), "after the swap-removal at %s the loop examines the slot again (or counts downwards): %v — otherwise the element moved into the slot is never tested", c.P.Pos(st.Pos()), bad == token.NoPos)
+						// an upward scan that removes duplicates / stale entries looks at the last element too: its bound is the
+						// length of the list, not the length minus one
+						if ifi := an.BlockIf(h); ifi != nil {
+							if x, y, op, isCmp := an.CmpTest(ifi); isCmp {
+								short := false
+								for _, pr := range [][3]interface{}{{x, y, op}, {y, x, flipCmp(op)}} {
+									lhs, rhs, o := pr[0].(ssa.Value), pr[1].(ssa.Value), pr[2].(token.Token)
+									if an.Strip(lhs) != ssa.Value(idx) || o != token.LSS {
+										continue
+									}
+									if bo, isBo := an.Strip(rhs).(*ssa.BinOp); isBo && bo.Op == token.SUB && lenOf(bo.X) != nil {
+										if one, isC := an.ConstInt(bo.Y); isC && one >= 1 {
+											short = true
+										}
+									}
+								}
+								c.Check(!short, key+"|bound", ifi.Cond.Pos(), "the scan around the swap-removal at %s runs up to the last element of the list: %v — a bound of len−1 leaves the last element unexamined: a duplicate (or stale entry) that lands there survives", c.P.Pos(st.Pos()), !short)
+							}
+						}
 					}
 				}
 			}
